@@ -531,6 +531,20 @@ fn misc_device_cases(ctx: &Ctx) {
         ("single-through-nested-macros", ".macro chip\n.device @0\n.endm\n.macro board\n\tchip ATmega8\n.endm\n\tboard\n\tnop\n".to_string(), true),
         ("single", ".device ATmega8\nnop\n".to_string(), true),
     ];
+    // names next to the table's names: a grade letter more, a letter less, a digit more - each is in the table or unknown
+    let table = devices::table();
+    let known: std::collections::HashSet<&str> = table.iter().map(|(n, _)| n.as_str()).collect();
+    let mut near: Vec<(String, String, bool)> = vec![];
+    for (n, _) in table.iter() {
+        for v in [format!("{}A", n), format!("{}L", n), format!("{}V", n), format!("{}P", n), format!("{}PA", n), format!("{}AA", n), format!("{}X", n), format!("{}0", n), n[..n.len() - 1].to_string(), format!("X{}", n), n.replace("AT", "AT_")] {
+            if !known.contains(v.as_str()) && !near.iter().any(|(_, s, _)| s.contains(&format!(" {}\n", v))) {
+                let via_macro = near.len() % 3 == 2;
+                near.push((format!("unknown-next-to-a-known-name"), if via_macro { format!(".macro part\n.device @0\n.endm\n\tpart {}\n\tnop\n", v) } else { format!(".device {}\n\tnop\n", v) }, false));
+            }
+        }
+    }
+    ctx.put("unknown_names_next_to_known_ones", json!(near.len()));
+    let cases: Vec<(&str, String, bool)> = cases.into_iter().chain(near.iter().map(|(a, b, c)| (a.as_str(), b.clone(), *c))).collect();
     for (name, src, ok) in cases {
         let out = fw::build_str(&src);
         ctx.eval(1);
